@@ -213,6 +213,11 @@ def main(argv=None):
     args = ap.parse_args(argv)
     if args.replay:
         return do_replay(args.replay)
+    if args.no_kani:
+        # dev-only partial run: never overwrite the committed evidence of full runs
+        global EVID, REPLAYS
+        EVID = os.path.join(VERIF, '.work', 'evidence-dev')
+        REPLAYS = os.path.join(EVID, 'replays')
     pid = args.prop
     if pid not in props.PROPS:
         log('unknown property', pid)
